@@ -281,11 +281,12 @@ class FormDataParser:
         ):
             raise RequestEntityTooLarge()
 
-        if self.max_form_memory_size is None or content_length is not None:
+        if self.max_form_memory_size is None:
             data = stream.read()
         else:
-            # The length isn't known up front, stop reading as soon as the
-            # data exceeds the limit instead of reading all of it.
+            # The stream can hold more than the declared length (which may be
+            # missing, empty or wrong), stop reading as soon as the data
+            # exceeds the limit instead of reading all of it.
             chunks = []
             remaining = self.max_form_memory_size + 1
 
